@@ -12,7 +12,7 @@ D6 the *configured* timeout is the one applied: every housekeeping pass refreshe
    before the liveness test that decides a teardown.
 """
 from ..absint import AbsInt, Entry, Num
-from ..ctx import CONN, bool_branches, is_call, is_field, is_iter_next, result_arms, sname
+from ..ctx import is_awaited_result_of, CONN, bool_branches, is_call, is_field, is_iter_next, result_arms, sname
 from ..expr import show, walk
 from ..pathcond import calls_to, field_stores
 from . import C01
@@ -38,7 +38,7 @@ def d1_who_tears_down(ctx):
             continue
         pa = ctx.pa(f)
         cfg = ctx.cfg(f)
-        arms = result_arms(f, pa.fa, lambda e: any(is_call(x, stable=C01.SCB) for x in walk(e)))
+        arms = result_arms(f, pa.fa, lambda e: is_awaited_result_of(e, C01.SCB))
         err_blocks = [a["Err"] for (sbb, a) in arms if "Err" in a]
         for (mb, mt) in calls_to(f, stable=CONN + "::mark_for_recovery"):
             ok = any(cfg.dominates(e, mb) for e in err_blocks)
